@@ -157,6 +157,27 @@ func Open(dir string, opts ...walOpt) (*WAL, error) {
 			if err != nil {
 				return nil, err
 			}
+
+			sealed, indexStart, err := sw.Sealed()
+			if err != nil {
+				return nil, err
+			}
+			if sealed {
+				// We crashed after the append (or truncation) that sealed this segment
+				// but before the rotation was committed to the metaDB. The writer
+				// will refuse all further appends so finish the rotation now: record
+				// the segment as sealed and fall through to create a new tail below.
+				si.SealTime = time.Now()
+				si.MaxIndex = sw.LastIndex()
+				si.IndexStart = indexStart
+				ss := segmentState{
+					SegmentInfo: si,
+					r:           sw,
+				}
+				newState.segments = newState.segments.Set(si.BaseIndex, ss)
+				break
+			}
+
 			// Set the tail and "reader" for this segment
 			ss := segmentState{
 				SegmentInfo: si,
@@ -193,10 +214,16 @@ func Open(dir string, opts ...walOpt) (*WAL, error) {
 		// truncation that removed all segments) since we otherwise never allow the
 		// state to have a sealed tail segment. But this logic works regardless!
 
-		// Create a new segment. We use baseIndex of 1 even though the first append
-		// might be much higher - we'll allow that since we know we have no records
-		// yet and so lastIndex will also be 0.
-		si := w.newSegment(newState.nextSegmentID, 1)
+		// Create a new segment. If the log is empty we use baseIndex of 1 even
+		// though the first append might be much higher - we'll allow that since we
+		// know we have no records yet and so lastIndex will also be 0. Otherwise
+		// (we just completed an interrupted rotation above) it must follow on from
+		// the last sealed segment.
+		nextBaseIndex := uint64(1)
+		if last := newState.getTailInfo(); last != nil {
+			nextBaseIndex = last.MaxIndex + 1
+		}
+		si := w.newSegment(newState.nextSegmentID, nextBaseIndex)
 		newState.nextSegmentID++
 		ss := segmentState{
 			SegmentInfo: si,
